@@ -73,6 +73,26 @@ def mc_stage(ctx, tag, instrs, pools, profile="dev", workers=12):
     return len(cs)
 
 
+def behav_stage(ctx, which, n, steps=600):
+    """Bounded behaviour model MC_Behav: TLC checks the documented behaviour of every catalogue
+    program on the specification and prints it; the real code replays each program step by step."""
+    cfg = 'SPECIFICATION Spec\nCONSTANTS\n Which = "%s"\n N = %d\nINVARIANTS Expected Determinate Emit\nPROPERTY Terminates\nCHECK_DEADLOCK FALSE\n' % (which, n)
+    cases, st = pv.run_tlc_model("MC_Behav", cfg, ctx.work, workers=8, tag="behav_" + which)
+    if "error" in st:
+        raise pv.ToolError("TLC failed on the behaviour model %s:\n%s" % (which, st["error"]))
+    ctx.stats["states"] += st["states"]
+    ctx.stats["transitions"] += st["transitions"]
+    ctx.stats["tlc_runs"].append(st)
+    cs = []
+    for i, c in enumerate(cases):
+        pre = c["pre"]
+        if pre.get("bind") == []:
+            pre["bind"] = {}
+        cs.append({"id": "behav-%s-%04d" % (which, i), "pre": pre, "acts": [{"a": "steps", "k": steps}], "expect": c["expect"]})
+    run_events(ctx, "behav_" + which, cs)
+    return len(cs)
+
+
 def random_program_cases(ctx, n, seed, max_points=40, steps=120, prefix="rp"):
     g = gen.Gen(seed, ctx.registry)
     cases = []
